@@ -442,6 +442,21 @@ def gen_case(rng):
     forest = gen_forest(rng)
     free = rng.random() < 0.2
     nodes = list(all_nodes(forest))
+    if free and len(forest) >= 2 and rng.random() < 0.6:
+        # ids are unique per tree only: two tasks of DIFFERENT detached trees carry one id (a list such as
+        # task.predecessors can hold both); a lone `id=` filter must return both
+        ta, tb = rng.sample(forest, 2)
+        x, y = rng.choice(list(all_nodes([ta]))), rng.choice(list(all_nodes([tb])))
+        y['id'] = x['id']
+        if rng.random() < 0.5:
+            kind = rng.random()
+            flt = [['id', ['v', x['id']]]]
+            if kind < 0.5:
+                return {'free': free, 'forest': forest, 'op': ['query', ['all'], None, flt]}
+            if kind < 0.8:
+                k, v = gen_assign(rng)
+                return {'free': free, 'forest': forest, 'op': ['assign', ['query', ['all'], None, flt], k, v]}
+            return {'free': free, 'forest': forest, 'op': ['query', ['all'], None, flt + [gen_filter(rng, forest, set())][:rng.randint(0, 1)]]}
     r = rng.random()
     if r < 0.45:
         op = ['query', gen_source(rng, forest, free), gen_key(rng, forest), gen_filters(rng, forest)]
